@@ -18,6 +18,9 @@ except NameError:
 _REQUEST_BUILTINS = ('request', '_application', '_route', '_dispatch_state')
 _RENDER_BUILTINS = _REQUEST_BUILTINS + ('context',)
 RESERVED_ARGS = _RENDER_BUILTINS + ('next',)
+# reserved as well, but never injectable into the middleware chain:
+# _error exists for render_error functions only
+_UNUSABLE_ARGS = ('_error',)
 
 
 class InvalidEndpoint(ValueError):
@@ -252,7 +255,8 @@ class BoundRoute(object):
         src_provides_map = {'url': set(self.converters),
                             'builtins': set(RESERVED_ARGS),
                             'resources': set(self.resources)}
-        check_middlewares(self.middlewares, src_provides_map)
+        check_middlewares(self.middlewares,
+                          dict(src_provides_map, reserved=set(_UNUSABLE_ARGS)))
         provided = set.union(*src_provides_map.values())
 
         self._execute = make_middleware_chain(self.middlewares, unbound_route.endpoint, render, provided)
